@@ -204,6 +204,17 @@ fn token(t: &mut Tape, forbid: &str) -> String {
     s
 }
 
+/// A branch name from the canonical domain: " [x]" after the URL denotes the subpath, so a branch that itself starts
+/// with '[' makes the text form ambiguous by the format's own rules.
+fn branch_token(t: &mut Tape) -> String {
+    let b = token(t, "");
+    if b.starts_with('[') {
+        format!("b{}", b)
+    } else {
+        b
+    }
+}
+
 fn line(t: &mut Tape) -> String {
     // single-line payload: no newline, no leading/trailing whitespace, may contain inner spaces
     let mut s = token(t, "");
@@ -294,13 +305,13 @@ impl PropImpl for C18 {
                 let name = token(t, "");
                 Case::Profile(t.flag(), if name.starts_with('!') { format!("p{}", name) } else { name })
             }
-            5 => Case::ParsedVcs { url: token(t, ""), branch: if t.flag() { Some(token(t, "")) } else { None }, subpath: if t.flag() { Some(token(t, "]")) } else { None } },
+            5 => Case::ParsedVcs { url: token(t, ""), branch: if t.flag() { Some(branch_token(t)) } else { None }, subpath: if t.flag() { Some(token(t, "]")) } else { None } },
             6 => {
                 let kind = t.below(5) as u8;
                 Case::Vcs {
                     kind,
                     url: token(t, ""),
-                    branch: if kind == 0 && t.flag() { Some(token(t, "")) } else { None },
+                    branch: if kind == 0 && t.flag() { Some(branch_token(t)) } else { None },
                     subpath: if kind <= 1 && t.flag() { Some(token(t, "]")) } else { None },
                     module: if kind == 4 && t.flag() { Some(line(t)) } else { None },
                 }
